@@ -228,6 +228,14 @@ class Report:
             json.dump(evidence, fout, indent=1, sort_keys=True)
             fout.write('\n')
         os.replace(tmp, os.path.join(target, f'{self.prop}.json'))
+        if self.tier == 'thorough' and target == EVIDENCE_DIR:
+            # keep the last thorough run next to the (quick) evidence that
+            # the every-change runs keep rewriting
+            keep = os.path.join(env.VERIF, 'evidence_thorough')
+            os.makedirs(keep, exist_ok=True)
+            with open(os.path.join(keep, f'{self.prop}.json'), 'w') as fout:
+                json.dump(evidence, fout, indent=1, sort_keys=True)
+                fout.write('\n')
 
         for line in lines:
             print(line)
